@@ -1,6 +1,7 @@
 import Drpc.Lemmas.Migrate
 import Drpc.Lemmas.MigrateHeader
 import Drpc.Lemmas.MigrateMux
+import Drpc.Lemmas.MigrateReroute
 /-
   C16 — Listener multiplexer routes every connection once, by prefix, transparently.
   Property theorems only.  Model: `Drpc/Migrate.lean` (§1 readers / prefixConn / ReadFull / routeConn's
@@ -236,6 +237,60 @@ theorem only_route_panics (n : Nat) (s s' : Mux.State) (l : Mux.Label) (hs : Mux
     repeat' (split at hs)
     all_goals first | (cases hs; done) | (cases hs; simp)
 
+/-! ### re-registering a prefix (Route after Route, Route after Close) -/
+
+open Mux in
+/-- `Route(p)` for a prefix that is registered returns the registered listener and changes nothing —
+    also when that listener is already closed and only waits for its monitor goroutine to remove it. -/
+theorem route_registered_is_noop (n : Nat) (s : Mux.State) (p : Bytes) (l : Lid) (hmu : s.muHeld = false)
+    (hp : p.length = n) (hl : lookupRoute s.routes p = some l) : Mux.step n s (.route p) = some s := by
+  simp [Mux.step, hmu, hp, hl]
+
+open Mux in
+/-- `monitorListener` deletes `m.routes[prefix]` by prefix, not by listener.  That removes the monitor's
+    own listener and never a re-registered one: until the monitor of listener `lid` has done its delete
+    the entry of its prefix is `lid` (Route never replaces a registered entry), and the delete leaves
+    every other prefix alone. -/
+theorem monitor_deletes_own_entry (n : Nat) (s : Mux.State) (h : Mux.Reachable n s) (lid : Lid) (p : Bytes)
+    (hm : s.mon lid = .delete p) :
+    lookupRoute s.routes p = some lid ∧
+    ∀ s', Mux.step n s (.monDelete lid) = some s' →
+      lookupRoute s'.routes p = none ∧ ∀ q, q ≠ p → lookupRoute s'.routes q = lookupRoute s.routes q := by
+  refine ⟨(invOwn_reachable n s h).own lid p (by simp [hm, monPending]), fun s' hs => ?_⟩
+  obtain ⟨p', hdel, hr, _, _⟩ := monDelete_effect n s s' lid hs
+  rw [hm] at hdel
+  cases hdel
+  rw [hr]
+  exact ⟨lookupRoute_filter_eq _ _, fun q hq => lookupRoute_filter_ne _ _ _ hq⟩
+
+open Mux in
+/-- A routed listener that is not closed is the registered route of the prefix it was created for —
+    however often that prefix was registered, closed and registered again before — and a connection
+    whose first `n` bytes are that prefix is sent to it, unwrapped (never to the default listener). -/
+theorem open_listener_receives_its_prefix (n : Nat) (s : Mux.State) (h : Mux.Reachable n s) (lid : Lid)
+    (h0 : 0 < lid) (h1 : lid < s.nextLid) (ho : s.ldone lid = false) :
+    ∃ p, s.mon lid = .select p ∧ lookupRoute s.routes p = some lid ∧
+      ∀ c s', s.conn c = .lookup → (s.cdata c).take n = p → Mux.step n s (.lookup c) = some s' →
+        s'.conn c = .sending lid false := by
+  have hsel : monSel (s.mon lid) = true := by
+    rcases (Mux.inv_reachable n s h).2.2.monDone lid h0 h1 with hs | hd
+    · exact hs
+    · rw [ho] at hd; cases hd
+  cases hm : s.mon lid with
+  | select p =>
+    have hreg := (invOwn_reachable n s h).own lid p (by simp [hm, monPending])
+    refine ⟨p, rfl, hreg, fun c s' hc ht hs => ?_⟩
+    simp only [Mux.step] at hs
+    split at hs
+    · cases hs
+    · rw [hc] at hs
+      simp only [ht, hreg] at hs
+      cases hs
+      simp
+  | absent => simp [hm, monSel] at hsel
+  | delete p => simp [hm, monSel] at hsel
+  | finished p => simp [hm, monSel] at hsel
+
 /-! ### non-vacuity of the hypotheses -/
 
 namespace Examples
@@ -275,6 +330,22 @@ example : ∃ s, Mux.Reachable 1 s ∧ s.mdone = true ∧ Mux.Quiescent 1 s ∧ 
     intro l hl
     cases l <;> simp [Label.internal] at hl <;> simp [Mux.step, State.muHeld]
     all_goals (rename_i x; by_cases h0 : x = 0 <;> by_cases h1 : x = 1 <;> simp [h0, h1])
+
+/-- Route("\x01"), Close, Route again at once (the closed listener 1 is returned), the monitor removes the
+    entry, Route once more: listener 2 is open and registered, listener 1 is closed. -/
+def rsched : List Mux.Label :=
+  [.route [1#8], .closeCall 1, .route [1#8], .monFire 1, .monDelete 1, .route [1#8]]
+
+set_option linter.unusedSimpArgs false in
+example : ∃ s, Mux.Reachable 1 s ∧ s.nextLid = 3 ∧ s.ldone 1 = true ∧ s.ldone 2 = false ∧
+    s.mon 1 = .finished [1#8] ∧ s.routes = [([1#8], 2)] := by
+  cases h : mrun 1 rsched Mux.init with
+  | none => simp [rsched, mrun, Mux.step, Mux.init, State.setMon, State.closeLis, State.muHeld, lookupRoute] at h
+  | some s =>
+    refine ⟨s, mrun_reachable _ _ _ _ Mux.Reachable.init h, ?_⟩
+    simp [rsched, mrun, Mux.step, Mux.init, State.setMon, State.closeLis, State.muHeld, lookupRoute] at h
+    subst h
+    simp
 
 end Examples
 
@@ -318,6 +389,9 @@ theorem stalled_connection_counterexample :
 #print axioms route_lookup_exact
 #print axioms registered_keys_have_prefix_len
 #print axioms only_route_panics
+#print axioms route_registered_is_noop
+#print axioms monitor_deletes_own_entry
+#print axioms open_listener_receives_its_prefix
 #print axioms stalled_connection_counterexample
 
 end Drpc.Props.C16
